@@ -14,6 +14,9 @@
 (* WrapUpperBound = TRUE transcribes the upper bound as the code computed  *)
 (* it before the repair (wraps to all-zero when no byte can be             *)
 (* incremented); FALSE is the intended behaviour (no upper bound).         *)
+(* FilterForeign = FALSE transcribes a second pre-repair behaviour: the    *)
+(* same-length upper bound of a prefix ending in maximal bytes lies above  *)
+(* shorter foreign keys, which were then read through the view.            *)
 (***************************************************************************)
 EXTENDS Bytes, TLC, Json
 
@@ -22,7 +25,9 @@ CONSTANTS B,          \* number of byte values
           ViewKeys,   \* keys used through views (and as range bounds)
           Vals,       \* non-empty values
           MaxOps,
-          WrapUpperBound
+          WrapUpperBound,
+          FilterForeign   \* TRUE: keys of the base range that do not start with the prefix are skipped
+                          \* (FALSE transcribes the code before its repair)
 
 VARIABLES raw,    \* the base store: raw key -> value
           nops,
@@ -60,7 +65,9 @@ Strip(p, k) == SubSeq(k, Len(p) + 1, Len(k))
 ImplViewRange(m, ns, s, e, ord) ==
     LET start == IF s = None THEN ns ELSE ns \o s
         end   == IF e = None THEN UpperBound(ns) ELSE ns \o e
-        r     == RefRange(m, start, end, ord)
+        r0    == RefRange(m, start, end, ord)
+        (* the upper bound keeps the length of the prefix, so shorter foreign keys can sort below it *)
+        r     == IF FilterForeign THEN SelectSeq(r0, LAMBDA p : IsPrefixOf(ns, p[1])) ELSE r0
     IN [i \in 1..Len(r) |-> << Strip(ns, r[i][1]), r[i][2] >>]
 
 (* reference: exactly the entries under the prefix, prefix stripped *)
